@@ -33,7 +33,7 @@ RB(variant, b) == INSTANCE RSBin WITH Variant <- variant, SUBBITS <- (IF variant
                                       HINT <- (IF variant = "narrow" THEN 1024 ELSE 8192), FW <- (IF variant = "narrow" THEN 9 ELSE 12),
                                       MaxN <- 0, HintTiming <- "code", B <- b
 DA(b) == INSTANCE DArr WITH BLOCK <- 1024, SUB <- 32, MAXD <- 65536, W <- 64, MaxN <- 0, AsFoundSparseCount <- FALSE, DenseTest <- "<", B <- b
-HW(k, p, sq) == INSTANCE HuffWM WITH K <- k, MaxLeaves <- 0, MaxDepth <- 0, MaxN <- 0, ScratchSize <- "code", Finished <- "last", EarlyExit <- TRUE, prof <- p, S <- sq
+HW(k, p, sq) == INSTANCE HuffWM WITH K <- k, MaxLeaves <- 0, MaxDepth <- 0, MaxN <- 0, ScratchSize <- "code", Finished <- "last", EarlyExit <- TRUE, GrowLoop <- "while", prof <- p, S <- sq
 
 Rep(ln, kind, table, ok) == PrintT(<<"FIDELITY", ToJson([ln |-> Rec[ln].ln, kind |-> kind, table |-> table, in_sync |-> ok])>>)
 
